@@ -762,3 +762,187 @@ theorem qinv_createTopic (w : World) (name : Name) (l : Nat) (h : QInv w) : QInv
   apply qinv_applyAll
   intro e k
   exact h e k
+
+/-! ### acknowledged PUTs are stored (C22) -/
+
+/-- the payload a PUT task has already written -/
+def holds : Task → Option Payload
+  | .putWritten c => some c.payload
+  | .putRecorded c => some c.payload
+  | .putCounted c _ => some c.payload
+  | .putAwait _ x => some x
+  | _ => none
+
+def Stored (w : World) (x : Payload) : Prop := ∃ ev ∈ w.writes, ev.payload = x
+
+/-- what one step does to the task table, the acknowledgement list and `writes` -/
+structure TStep (w w' : World) (tid : Nat) : Prop where
+  mono : ∀ x, Stored w x → Stored w' x
+  tasks : w'.tasks = w.tasks ∨ ∃ t', w'.tasks = w.tasks.insert tid t' ∧
+    (∀ x, holds t' = some x → Stored w' x)
+  acked : w'.acked = w.acked ∨ ∃ x, w'.acked = w.acked ++ [x] ∧ ∃ t, w.tasks.get? tid = some t ∧ holds t = some x
+
+theorem getLoop_t (w : World) (tid n : Nat) (topic : Name) (seg del : Nat) :
+    (getLoop w tid n topic seg del).1.writes = w.writes ∧ (getLoop w tid n topic seg del).1.acked = w.acked ∧
+    ∃ t', (getLoop w tid n topic seg del).1.tasks = w.tasks.insert tid t' ∧ holds t' = none := by
+  unfold getLoop
+  simp only
+  split
+  · exact ⟨rfl, rfl, _, rfl, rfl⟩
+  · split
+    · exact ⟨rfl, rfl, _, rfl, rfl⟩
+    · exact ⟨rfl, rfl, _, rfl, rfl⟩
+
+theorem monLoop_t (w : World) (tid n : Nat) (l : List (Name × Nat)) :
+    (monLoop w tid n l).1.writes = w.writes ∧ (monLoop w tid n l).1.acked = w.acked ∧
+    ∃ t', (monLoop w tid n l).1.tasks = w.tasks.insert tid t' ∧ holds t' = none := by
+  induction l generalizing w with
+  | nil => exact ⟨rfl, rfl, _, rfl, rfl⟩
+  | cons p r ih =>
+    obtain ⟨topic, seg⟩ := p
+    unfold monLoop
+    simp only
+    split
+    · exact ih w
+    · exact ⟨rfl, rfl, _, rfl, rfl⟩
+
+theorem tstep_of_none (w w' : World) (tid : Nat) (hw : w'.writes = w.writes) (ha : w'.acked = w.acked)
+    (ht : w'.tasks = w.tasks ∨ ∃ t', w'.tasks = w.tasks.insert tid t' ∧ holds t' = none) : TStep w w' tid := by
+  refine ⟨fun x h => by unfold Stored at *; rw [hw]; exact h, ?_, Or.inl ha⟩
+  rcases ht with ht | ⟨t', ht, hn⟩
+  · exact Or.inl ht
+  · exact Or.inr ⟨t', ht, fun x hx => by rw [hn] at hx; cases hx⟩
+
+/-- a task that keeps holding the payload it already held -/
+theorem tstep_keep (w w' : World) (tid : Nat) (t t' : Task) (hw : w'.writes = w.writes) (ha : w'.acked = w.acked)
+    (hcur : w.tasks.get? tid = some t) (ht : w'.tasks = w.tasks.insert tid t') (hh : ∀ x, holds t' = some x → holds t = some x)
+    (hinv : ∀ x, holds t = some x → Stored w x) : TStep w w' tid := by
+  refine ⟨fun x h => by unfold Stored at *; rw [hw]; exact h, Or.inr ⟨t', ht, ?_⟩, Or.inl ha⟩
+  intro x hx
+  have := hinv x (hh x hx)
+  unfold Stored at *; rw [hw]; exact this
+
+theorem stepTask_tstep (w : World) (tid : Nat)
+    (hinv : ∀ t, w.tasks.get? tid = some t → ∀ x, holds t = some x → Stored w x) : TStep w (stepTask w tid).1 tid := by
+  unfold stepTask
+  split
+  · exact tstep_of_none _ _ _ rfl rfl (Or.inl rfl)
+  · exact tstep_of_none _ _ _ rfl rfl (Or.inl rfl)
+  · -- putStart
+    split
+    · exact tstep_of_none _ _ _ rfl rfl (Or.inr ⟨_, rfl, rfl⟩)
+    · simp only
+      split
+      · exact tstep_of_none _ _ _ rfl rfl (Or.inr ⟨_, rfl, rfl⟩)
+      · exact tstep_of_none _ _ _ rfl rfl (Or.inr ⟨_, rfl, rfl⟩)
+  · -- putRefreshed
+    simp only
+    split
+    · exact tstep_of_none _ _ _ rfl rfl (Or.inr ⟨_, rfl, rfl⟩)
+    · split
+      · exact tstep_of_none _ _ _ rfl rfl (Or.inr ⟨_, rfl, rfl⟩)
+      · exact tstep_of_none _ _ _ rfl rfl (Or.inr ⟨_, rfl, rfl⟩)
+  · -- putChecked
+    simp only
+    split
+    · exact tstep_of_none _ _ _ rfl rfl (Or.inl rfl)
+    · exact tstep_of_none _ _ _ rfl rfl (Or.inr ⟨_, rfl, rfl⟩)
+  · -- putLocked: the write
+    rename_i c hc
+    refine ⟨?_, Or.inr ⟨.putWritten c, rfl, ?_⟩, Or.inl rfl⟩
+    · intro x ⟨ev, hev, hx⟩
+      exact ⟨ev, List.mem_append_left _ hev, hx⟩
+    · intro x hx
+      simp only [holds, Option.some.injEq] at hx
+      exact ⟨_, List.mem_append_right _ (List.mem_singleton.mpr rfl), hx⟩
+  · -- putWritten
+    rename_i c hc
+    exact tstep_keep _ _ _ _ (.putRecorded c) rfl rfl hc rfl (fun x h => h) (hinv _ hc)
+  · -- putRecorded
+    rename_i c hc
+    exact tstep_keep _ _ _ _ (.putCounted c _) rfl rfl hc rfl (fun x h => h) (hinv _ hc)
+  · -- putCounted
+    rename_i c cnt hc
+    split
+    · refine ⟨fun x h => h, Or.inr ⟨.finished, rfl, fun x hx => by cases hx⟩, Or.inr ⟨c.payload, rfl, _, hc, rfl⟩⟩
+    · exact tstep_keep _ _ _ _ (.putAwait _ c.payload) rfl rfl hc rfl (fun x h => h) (hinv _ hc)
+  · -- putAwait
+    rename_i idx x hc
+    split
+    · refine ⟨fun y h => h, Or.inr ⟨.finished, rfl, fun y hy => by cases hy⟩, Or.inr ⟨x, rfl, _, hc, rfl⟩⟩
+    · exact tstep_of_none _ _ _ rfl rfl (Or.inl rfl)
+  · -- getStart
+    rename_i n topic _
+    simp only
+    split
+    · exact tstep_of_none _ _ _ rfl rfl (Or.inl rfl)
+    · have h := getLoop_t (w.setNode n { (w.node n) with cursorLocked := true }) tid n topic
+        (((w.node n).cursors.get? topic).getD (0, 0)).1 (((w.node n).cursors.get? topic).getD (0, 0)).2
+      exact tstep_of_none _ _ _ h.1 h.2.1 (Or.inr h.2.2)
+  · -- getPlanned
+    rename_i n topic seg del cur leader _
+    simp only
+    split
+    · exact tstep_of_none _ _ _ rfl rfl (Or.inr ⟨_, rfl, rfl⟩)
+    · split
+      · exact tstep_of_none _ _ _ rfl rfl (Or.inr ⟨_, rfl, rfl⟩)
+      · split
+        · have h := getLoop_t w tid n topic (seg + 1) 0
+          exact tstep_of_none _ _ _ h.1 h.2.1 (Or.inr h.2.2)
+        · exact tstep_of_none _ _ _ rfl rfl (Or.inr ⟨_, rfl, rfl⟩)
+  · exact tstep_of_none _ _ _ rfl rfl (Or.inr ⟨_, rfl, rfl⟩)
+  · exact tstep_of_none _ _ _ (monLoop_t w tid _ _).1 (monLoop_t w tid _ _).2.1 (Or.inr (monLoop_t w tid _ _).2.2)
+  · split
+    · exact tstep_of_none _ _ _ (monLoop_t w tid _ _).1 (monLoop_t w tid _ _).2.1 (Or.inr (monLoop_t w tid _ _).2.2)
+    · exact tstep_of_none _ _ _ rfl rfl (Or.inl rfl)
+
+/-- every payload a task has written, and every acknowledged payload, is in `writes` -/
+def AckInv (w : World) : Prop :=
+  (∀ tid t, w.tasks.get? tid = some t → ∀ x, holds t = some x → Stored w x) ∧ (∀ x ∈ w.acked, Stored w x)
+
+theorem ackInv_step (w : World) (tid : Nat) (h : AckInv w) : AckInv (stepTask w tid).1 := by
+  obtain ⟨mono, ht, ha⟩ := stepTask_tstep w tid (fun t ht => h.1 tid t ht)
+  constructor
+  · intro tid' t hget x hx
+    rcases ht with ht | ⟨t', ht, hs⟩
+    · rw [ht] at hget; exact mono x (h.1 tid' t hget x hx)
+    · rw [ht, AMap.get?_insert] at hget
+      by_cases he : tid = tid'
+      · simp only [he, if_true, Option.some.injEq] at hget
+        subst hget; exact hs x hx
+      · simp only [he, if_false] at hget
+        exact mono x (h.1 tid' t hget x hx)
+  · intro x hx
+    rcases ha with ha | ⟨y, ha, t, hget, hy⟩
+    · rw [ha] at hx; exact mono x (h.2 x hx)
+    · rw [ha, List.mem_append] at hx
+      rcases hx with hx | hx
+      · exact mono x (h.2 x hx)
+      · simp only [List.mem_singleton] at hx
+        subst hx
+        exact mono x (h.1 tid t hget x hy)
+
+theorem ackInv_act (w : World) (a : Act) (hs : ∀ tid t, a = .spawn tid t → holds t = none) (h : AckInv w) : AckInv (act w a) := by
+  cases a with
+  | step tid => exact ackInv_step w tid h
+  | apply n =>
+    show AckInv (applyNext w n).1
+    have hw := applyNext_writes w n
+    have ht : (applyNext w n).1.tasks = w.tasks := by unfold applyNext; simp only; split <;> rfl
+    have ha : (applyNext w n).1.acked = w.acked := by unfold applyNext; simp only; split <;> rfl
+    unfold AckInv Stored at *
+    rw [hw, ht, ha]; exact h
+  | sync n => exact h
+  | spawn tid t =>
+    have hn := hs tid t rfl
+    constructor
+    · intro tid' t' hget x hx
+      show Stored w x
+      simp only [act] at hget
+      rw [AMap.get?_insert] at hget
+      by_cases he : tid = tid'
+      · simp only [he, if_true, Option.some.injEq] at hget
+        subst hget; rw [hn] at hx; cases hx
+      · simp only [he, if_false] at hget
+        exact h.1 tid' t' hget x hx
+    · exact h.2
